@@ -464,7 +464,7 @@ func c05r5(r *R) {
 				return
 			}
 			fv := funcFieldOf(c.Common().Value)
-			if fv == nil || fv.Name() != "rd" || fv.Pkg() == nil || fv.Pkg().Path() != modPath {
+			if fv == nil || refFieldName(fv) != "rd" || fv.Pkg() == nil || fv.Pkg().Path() != modPath {
 				return
 			}
 			nrd++
